@@ -4,6 +4,7 @@ mod kbucket;
 mod lookup;
 mod record;
 mod store;
+mod wire;
 
 fn main() {
     let a = vcommon::Args::parse();
@@ -11,6 +12,7 @@ fn main() {
     match a.mode.as_str() {
         "kbucket" => kbucket::main(&sub),
         "store" => store::main(&sub),
+        "wire" => wire::main(&sub),
         "lookup" => lookup::main(&sub),
         "record" => record::main(&sub),
         m => {
